@@ -13,7 +13,7 @@ for sid in sorted(os.listdir(os.path.join(ROOT, "seeded"))):
     if not os.path.isdir(d) or (only and sid not in only and sid.split("-")[0] not in only):
         continue
     meta = json.load(open(os.path.join(d, "meta.json")))
-    prop = meta.get("property", sid.split("-")[0])
+    prop = meta.get("property_for_detection") or meta.get("property", sid.split("-")[0])
     out = subprocess.run([os.path.join(ROOT, "tools", "try_patch.sh"), os.path.join(d, "patch.diff"), prop],
                          stdout=subprocess.PIPE, stderr=subprocess.STDOUT, text=True).stdout
     detected = "VIOLATION property=%s" % prop in out
